@@ -735,6 +735,7 @@ var specTypes = pbt.Register(&pbt.Spec[TCase]{
 		return c
 	},
 	Run: RunTyped, Quick: 60000, Thorough: 150000,
+	Replicas: 4, ReplicaEvery: 8,
 })
 
 func TestC12Types(t *testing.T) { pbt.Check(t, specTypes) }
